@@ -15,6 +15,9 @@ type Gen struct {
 	W   *World
 	Rng *vh.RNG
 	N   int // counter for fee variation
+	// LooseKnown: the pool before the call is only known as of before a tip change (first pool call
+	// after it); the "known" parts of the submission oracle are skipped then
+	LooseKnown bool
 	// Track, if set, is told about every accepted set (C05 retention oracle)
 	Track *Tracker
 	// transactions seen confirmed or dropped, for lookups of ids that are no longer pooled
@@ -67,15 +70,15 @@ func (g *Gen) CheckAtomic(api string, kind string, k int, before map[types.Trans
 		if added != len(fresh) && !(g.Track != nil && g.Track.PoolFull) { // a full pool evicts at the next query
 			w.C.Oracle(api+"-ok-but-not-all-added", "%s succeeded but only %d of %d new transactions are pooled", api, added, len(fresh))
 		}
-		if len(fresh) == 0 {
+		if len(fresh) == 0 && !g.LooseKnown {
 			w.C.Oracle(api+"-not-known-although-all-pooled", "%s reported not-known although every transaction of the set was pooled or confirmed", api)
 		}
 	case "known":
-		if len(fresh) != 0 {
+		if len(fresh) != 0 && !g.LooseKnown {
 			w.C.Oracle(api+"-known-although-new", "%s reported known although %d transactions were not pooled", api, len(fresh))
 		}
 	}
-	if standaloneValid && len(fresh) == 0 && len(set) > 0 && res != "known" {
+	if standaloneValid && len(fresh) == 0 && len(set) > 0 && res != "known" && !g.LooseKnown {
 		w.C.Oracle(api+"-not-known-although-all-pooled", "%s returned %s for a valid set whose transactions are all pooled", api, res)
 	}
 }
@@ -506,7 +509,58 @@ func (g *Gen) FirstCall() string {
 		}
 		return false
 	}
-	switch q := rng.Intn(10); {
+	switch q := rng.Intn(12); {
+	case q >= 10: // a submission as the first pool call: a set valid as of the OLD tip (v2), or a v1 set
+		if q == 10 && w.V2Allowed() && w.Applied[oldTip] {
+			coins := w.CoinsOf(w.LedgerAt(oldTip), w.Tree.Blocks[oldTip].Height+1)
+			if len(coins) > 0 {
+				c := coins[rng.Intn(len(coins))]
+				if c.Value.Cmp(types.Siacoins(3)) >= 0 {
+					set := []types.V2Transaction{w.SpendV2(w.Node.CM.TipState(), []Coin{c}, 2, g.Fee(), 0)}
+					if rng.Bool() {
+						set = append(set, w.SpendV2(w.Node.CM.TipState(), []Coin{CoinV2(set[0], 1)}, 1, g.Fee(), 0))
+					}
+					// the pool before the call is not known to the harness without asking (which would defeat
+					// the purpose): the all-or-nothing oracle compares against the pool as it was before the
+					// tip change minus nothing, so only its "err => none added" and "ok => all added" parts apply
+					g.LooseKnown = true
+					g.AddV2(oldTip, set, nil, "first-call-stale-basis", -1, false)
+					g.LooseKnown = false
+					w.Stats["first-call:add2:"+how]++
+					return "first-call-add2"
+				}
+			}
+		}
+		if w.V1Allowed() {
+			// coins: confirmed at the new tip and not spent by the old pool
+			spent := map[types.SiacoinOutputID]bool{}
+			for _, t := range prev1 {
+				for _, in := range t.SiacoinInputs {
+					spent[in.ParentID] = true
+				}
+			}
+			for _, t := range prev2 {
+				for _, in := range t.SiacoinInputs {
+					spent[in.Parent.ID] = true
+				}
+			}
+			var cands []Coin
+			for _, c := range w.CoinsOf(w.Led, w.Node.CM.Tip().Height+1) {
+				if !spent[c.ID] && c.Value.Cmp(types.Siacoins(3)) >= 0 {
+					cands = append(cands, c)
+				}
+			}
+			if len(cands) > 0 {
+				set := []types.Transaction{w.SpendV1(w.Node.CM.TipState(), []Coin{cands[rng.Intn(len(cands))]}, 1, g.Fee(), 0)}
+				g.LooseKnown = true
+				g.AddV1(set, nil, "first-call", -1, false)
+				g.LooseKnown = false
+				w.Stats["first-call:add1:"+how]++
+				return "first-call-add1"
+			}
+		}
+		w.Guard("recommendedfee-panic", "RecommendedFee", func() { _ = w.Node.CM.RecommendedFee() })
+		kind = "fee"
 	case q < 3: // PoolTransaction
 		id, ok := pick1()
 		k := "v1"
